@@ -565,6 +565,12 @@ func (sp *subProcess) run(ctx context.Context, out tracing.ITracer) {
 					sp.active.Add(1)
 					defer sp.active.Add(-1)
 
+					// subscribe before the inner flows start, otherwise their first traces
+					// (including task requests) are sent before the relay listens and are lost
+					verifhook.Point("subprocess.run.before_subscribe")
+					traces := sp.subTracer.Subscribe()
+					defer sp.subTracer.Unsubscribe(traces)
+
 					if err := sp.startAll(ctx); err != nil {
 						subProcessId := ""
 						if pid, present := sp.element.Id(); present {
@@ -577,9 +583,6 @@ func (sp *subProcess) run(ctx context.Context, out tracing.ITracer) {
 						return
 					}
 
-					verifhook.Point("subprocess.run.before_subscribe")
-					traces := sp.subTracer.Subscribe()
-					defer sp.subTracer.Unsubscribe(traces)
 				loop:
 					for {
 						var trace tracing.ITrace
